@@ -11,6 +11,8 @@
      evs    events raised while processing the current message, in order:
             [ty : "Value"|"State"|"Def", dev, vec, el (None for vector events), old, new]
      calls  callback invocations of the current step, in order: <<callback id, event, late>>
+     sent   messages handed to the connection in the current step (client writes): [dev, vec, kind, els : Seq(<<name, value>>)]
+   Each property additionally carries  pend : one pending (assigned, not yet submitted) value per element, None = nothing pending.
 
    Recv is the reference interpreter of C15 (what an INDI client must do with a property stream); the declarative
    statements of C16 (ChainOK, CallsExact) are formulated on the events alone. *)
@@ -19,7 +21,7 @@ EXTENDS Integers, Sequences, FiniteSets, TLC
 None == "none"
 Range(s) == {s[i] : i \in DOMAIN s}
 
-C0 == [devs |-> <<>>, vecs |-> <<>>, cbs |-> <<>>, tasks |-> <<>>, evs |-> <<>>, calls |-> <<>>]
+C0 == [devs |-> <<>>, vecs |-> <<>>, cbs |-> <<>>, tasks |-> <<>>, evs |-> <<>>, calls |-> <<>>, sent |-> <<>>]
 
 FindVec(C, dev, name) == IF \E i \in DOMAIN C.vecs : C.vecs[i].dev = dev /\ C.vecs[i].name = name
                          THEN CHOOSE i \in DOMAIN C.vecs : C.vecs[i].dev = dev /\ C.vecs[i].name = name ELSE 0
@@ -43,7 +45,7 @@ Dispatch(C, e, i) ==
                                !.cbs = IF cb.rm = 0 THEN @ ELSE SelectSeq(@, LAMBDA x : x.id # cb.rm)], e, i + 1)
 Raise(C, e) == Dispatch([C EXCEPT !.evs = Append(@, e)], e, 1)
 
-Fresh(C) == [C EXCEPT !.evs = <<>>, !.calls = <<>>]
+Fresh(C) == [C EXCEPT !.evs = <<>>, !.calls = <<>>, !.sent = <<>>]
 
 (* a definition creates or replaces the property: value events for the elements that carry a value, then the state
    event, then the definition event *)
@@ -55,7 +57,7 @@ RecvDef(C, m) ==
   LET C1 == IF m.dev \in Range(C.devs) THEN C ELSE [C EXCEPT !.devs = Append(@, m.dev)]
       C2 == DefEvents(C1, m, 1)
       C3 == Raise(C2, Ev("State", m.dev, m.vec, None, None, m.st))
-      rec == [dev |-> m.dev, name |-> m.vec, kind |-> m.kind, st |-> m.st, els |-> m.els]
+      rec == [dev |-> m.dev, name |-> m.vec, kind |-> m.kind, st |-> m.st, els |-> m.els, pend |-> [j \in DOMAIN m.els |-> None]]
       k == FindVec(C3, m.dev, m.vec)
       C4 == IF k = 0 THEN [C3 EXCEPT !.vecs = Append(@, rec)] ELSE [C3 EXCEPT !.vecs[k] = rec]
   IN Raise(C4, Ev("Def", m.dev, m.vec, None, None, None))
@@ -89,6 +91,23 @@ Recv(C, m) == CASE m.t = "def" -> RecvDef(Fresh(C), m)
                 [] m.t = "set" -> RecvSet(Fresh(C), m)
                 [] m.t = "del" -> RecvDel(Fresh(C), m)
                 [] OTHER -> Fresh(C)
+
+(* client writes (C06): Element.value = x records a pending value (the mirrored value is untouched until the server answers);
+   Vector.submit sends ONE new*Vector listing exactly the pending elements, in the property's element order, and clears them.
+   Updates from the server leave pending values alone; a redefinition creates new elements, without pending values. *)
+Edit(C, dev, vec, el, x) ==
+  LET k == FindVec(C, dev, vec) IN
+  IF k = 0 THEN Fresh(C)
+  ELSE LET j == ElIndex(C.vecs[k].els, el) IN
+       IF j = 0 THEN Fresh(C) ELSE [Fresh(C) EXCEPT !.vecs[k].pend[j] = x]
+Submit(C, dev, vec) ==
+  LET k == FindVec(C, dev, vec) IN
+  IF k = 0 THEN Fresh(C)
+  ELSE LET v == C.vecs[k]
+           idx == SelectSeq([j \in DOMAIN v.els |-> j], LAMBDA j : v.pend[j] # None)
+       IN [Fresh(C) EXCEPT !.sent = << [dev |-> dev, vec |-> vec, kind |-> v.kind,
+                                        els |-> [i \in DOMAIN idx |-> <<v.els[idx[i]][1], v.pend[idx[i]]>>]] >>,
+                           !.vecs[k].pend = [j \in DOMAIN v.els |-> None]]
 
 OnEvent(C, cb) == [Fresh(C) EXCEPT !.cbs = Append(@, cb)]
 RmById(C, id) == [Fresh(C) EXCEPT !.cbs = SelectSeq(@, LAMBDA cb : cb.id # id)]
